@@ -134,7 +134,7 @@ def shaped_inputs(rng, T, n):
                 if rng.random() < 0.2:
                     items = items[:-1] if rng.random() < 0.5 else items + [rng.choice(SCALARS)]
             else:
-                items = [make(T["args"][0], d + 1) for _ in range(rng.randint(0, 3))]
+                items = [make(T["args"][0], d + 1) for _ in range(rng.choice([0, 1, 2, 3, 3, 5, 7]))]
             r = rng.random()
             try:
                 return list(items) if r < 0.5 else tuple(items) if r < 0.8 else set(items)
@@ -142,7 +142,7 @@ def shaped_inputs(rng, T, n):
                 return list(items)
         if k == "rule" and T["name"] == "dict":
             out = {}
-            for _ in range(rng.randint(0, 2)):
+            for _ in range(rng.choice([0, 1, 2, 2, 4])):
                 kk = make(T["args"][0], d + 1)
                 try:
                     out[kk] = make(T["args"][1], d + 1)
